@@ -127,16 +127,21 @@ def run(ctx: Ctx) -> None:
     for name, nb in cat["neighbours"].items():
         base = [cat["hex"][name][k] for k in range(8)]
         nbr = [nb[k] for k in range(8)]
-        vals = []
+        vals, vals2 = [], []
         for perm in cat["hexperms"][:: (3 if ctx.tier == "quick" else 1)]:
-            for perm2 in (cat["hexperms"][0], cat["hexperms"][rng.randrange(24)]):
+            for perm2 in (cat["hexperms"][0], cat["hexperms"][rng.randrange(24)], cat["hexperms"][rng.randrange(24)]):
                 a = [base[perm[k]] for k in range(8)]
                 b = [nbr[perm2[k]] for k in range(8)]
                 v = q_safe(lambda: hex_quality(a, b), f"hex+neighbour:{name}")
+                # the neighbour is a cell as well: its value must not depend on how either of the two is numbered
+                v2 = q_safe(lambda: hex_quality(a, b, which=1), f"hex+neighbour:{name}")
                 ctx.evaluated(f"nb:{name}:{perm}:{perm2}")
                 if v is not None:
                     vals.append(code(v))
+                if v2 is not None:
+                    vals2.append(code(v2))
         add("equal", f"renumbering:hex+neighbour:{name}", codes=vals, tol=5)
+        add("equal", f"renumbering:neighbour-of-hex:{name}", codes=vals2, tol=5)
     for name, cell in cat["quad"].items():
         base = [cell[k] for k in range(4)]
         point, vector, scale = similarity(rng)
